@@ -22,6 +22,27 @@ direct oracle:   the statement on the real CLI: after a fault-free run A loads e
                  single Exception-fault up to and including close A has its
                  original bytes, no A.bak, non-zero exit; in every scenario the
                  original bytes survive in A or A.bak.
+round 3:         (model Cli/GenModel.v, FormatModel.v; rendering Cli/GenShow.v)
+                 * histories (inside the property): 3-5 `deep patch` commands in a row on
+                   one a.json, each with a delta made by the real `deep diff` from the
+                   current content of A, its own flags and fault plan; after every command
+                   (A, A.bak, exit status) against run_hist, the statement's clauses for
+                   that command, and the invariant of C20_history_good_version_survives.
+                 * extension "Crash" (outside the statement: recorded, never a violation):
+                   save_content_to_path in a forked child that is killed (os._exit) at
+                   every crash point - before each step, in the middle of a write, between
+                   the two phases of a non-atomic rename - under every single fault plan
+                   and some pairs, for the json / csv / pickle / toml branches; the
+                   directory left behind against the model's crash state (show_crash), the
+                   completed reference run against show_save_g, and the crash theorems'
+                   conclusions checked directly on the directory.
+                 * extension "Formats": the dispatch on the extension (ext_of / fmt_of_ext
+                   against probes of _save_content / load_path_content), `deep patch` on
+                   csv / tsv / pickle / toml / yaml / unknown targets under fault plans
+                   (show_patch_g), generated csv and pickle documents through the real CLI
+                   against the exact statement of C20_patch_reproduces_any_format, and the
+                   codec witnesses FORMAT_WITNESSES (real codecs outside the round-trip
+                   hypothesis) replayed at every run.
 """
 import builtins
 import copy
@@ -43,13 +64,17 @@ RULE = ("one case = one invocation of the real `deep patch` (or of save_content_
         "key added/removed, value/type change, list insert/delete/append, nested edit, root replacement; or independent; or identical); "
         "fault schedules: none, every single fault point x {Exception, KeyboardInterrupt} x {--backup} x {--debug}, "
         "pairs (all, for a subset of document pairs) and random triples; document pools include member names beginning/ending with one kind of quote character, non-ASCII / astral / unpaired-surrogate text in values and names, 400-digit integers and out-of-range floats (1e999 = inf) with int<->float changes whose constructor call overflows; a separate-process stream runs the CLI under LC_ALL=C PYTHONUTF8=0 on documents with non-ASCII text; plus a round-trip-only stream (fault-free diff -> patch through the real CLI, 900 quick / 6000 thorough pairs): scalar lists related by insert/delete/replace/move/dup/rotate edit scripts (values.gen_atom_list_pair, JSON alphabets keeping 1/true/1.0 apart) and 'inserts in front of an unchanged run + deletes behind it', planted under 0-2 dict/list levels; non-trivial = a fault fired or A != B; "
-        "distinct = distinct (A text, B text, flags, schedule)")
+        "distinct = distinct (A text, B text, flags, schedule); "
+        "round 3: histories = 60 quick / 400 thorough sequences of 3-5 commands on generated JSON documents (keys from a pool without quote / escape characters), fault plan per command: none 35%, one fault point 45%, two 20%, kinds Exception / KeyboardInterrupt; "
+        "extension streams (not part of the property's totals): crash = (file type in json, csv, pickle, toml [+ tsv, unknown in thorough]) x (serialisable / rejected at once / rejected after writes) x keep_backup x fault plans (none, every single Exception fault, 4 [all] KeyboardInterrupt singles, 6 [all] pairs) x A.bak pre-existing x crash points (before each of 7 steps, mid-write at the first four write calls, between the phases of a two-phase rename); "
+        "formats = 8 extensions x 21 plans x keep_backup of `deep patch`, 32 path names for the dispatch, 160 quick / 1200 thorough generated csv / pickle pairs (30% of the csv pairs against a JSON file whose rows the csv codec does not round-trip), 10 codec witnesses")
 TRUSTED = [
     "the file system is modelled abstractly (path -> option content) with POSIX semantics: os.rename is atomic, replaces an existing regular file, "
     "raises when the source is missing; a failing rename/remove changes nothing; directories, symlinks, permissions, hard links, concurrent writers and Windows "
     "(os.rename onto an existing file raises there) are not modelled",
     "buffering inside the file object is abstracted: what is on disk at A after a failing open/write/close is an unconstrained parameter of the fault",
-    "only the json file type of _save_content is modelled (yaml/toml/csv/pickle branches have the same shape but are not covered)",
+    "FsModel.save is the json branch; the generalised program Cli/GenModel.save_tr covers every branch of _save_content (buffered json / streaming yaml, toml, pickle, csv / serialiser missing or type unknown) and every intermediate state; the codecs themselves (text <-> document) are Section variables with an explicit round-trip hypothesis, except pickle (discharged by C14's codec theorem); yaml and tomli_w are not installed here: those branches are exercised only as 'module missing'",
+    "process crashes: the file-system state after each step persists (a killed process, not a power failure: no model of the page cache / fsync); what the file object had flushed at each moment (e_mid, e_pend, e_nat, e_flush) is an unconstrained parameter of every theorem and is read off the real directory by the correspondence",
     "the clause 'patch reproduces B': for JSON documents the C01 premise is discharged (C20_patch_reproduces_json_docs, guards wf + alias-free + no '__' keys); "
     "still premises: the C01 oracle conditions, conv_json_ok (list(x)/dict(x) on JSON values), unpickle(pickle d) = d (C14, not connected) and the JSON dump/load round trip; "
     "path rendering/parsing (C09) is outside the Delta model",
@@ -1219,7 +1244,13 @@ def forked(fn):
             os._exit(code)
     os.close(w)
     chunks = []
+    import select
+    import signal
     while True:
+        ready, _, _ = select.select([r], [], [], 120)
+        if not ready:                       # a stuck child: give up on it
+            os.kill(pid, signal.SIGKILL)
+            break
         c = os.read(r, 1 << 16)
         if not c:
             break
